@@ -454,6 +454,18 @@ fn run_c20(out: &mut Out, rng: &mut Rng, count: usize) {
   let all = mk_linter(rules_by_codes(&all_codes()), &Words::default());
   let own: &[&str] = &[
     "let total = 1; function g() { var total; total = 2; return total; } g(); f(total);",
+    // a declaration referenced only from inside itself, after an inner same-spelled binding whose scope has closed
+    "function walk(n) { for (const k of n.kids) { const walk = k + 1; log(walk); } return walk(n.parent); }",
+    "const tick = () => { { let tick = 1; f(tick); } return tick(); };",
+    "class Node { m() { { const Node = 1; f(Node); } return new Node(); } }",
+    "function outerFn() { function innerFn() { { var outerFn = 1; f(outerFn); } } innerFn(); return outerFn; }",
+    // two subtrees compared by a rule, each with a binding of its own inside
+    "if (f((el) => el)) {} else if (f((el) => el)) {}",
+    "if (g(function (it) { return it; })) {} else if (h) {} else if (g(function (it) { return it; })) {}",
+    "f(((el) => el) === ((el) => el));",
+    "const o1 = { k: (el) => el, k: (el) => el };",
+    "for (let idx = 0; idx < 3; idx++) { let idx = 9; f(idx); }",
+    "for (const key of ks) { let key = 1; key++; f(key); }",
     "let total = 1; function g() { var total; { total = 2; } return total; } g(); f(total);",
     "let total = 1; function g() { function total() {} total = 2; } g(); f(total);",
     "let total = 1; function g() { class total {} total = 2; } g(); f(total);",
@@ -500,7 +512,21 @@ fn run_c20(out: &mut Out, rng: &mut Rng, count: usize) {
         src
       } else {
         let n = &names[crng.below(names.len())];
+        let mut return_src: Option<String> = None;
         out.count("shadow-injected");
+        // …or inside the body of the function declaration of that name itself (before everything else in it)
+        let marker = format!("function {}(", n);
+        if let (true, Some(at)) = (crng.chance(1, 3), src.find(&marker)) {
+          if let Some(close) = src[at..].find(')') {
+            if let Some(open) = src[at + close..].find('{') {
+              let pos = at + close + open + 1;
+              out.count("shadow-injected-inside-own-body");
+              let mut t = src.clone();
+              t.insert_str(pos, &format!(" {{ const {n} = 1; void {n}; }} "));
+              return_src = Some(t);
+            }
+          }
+        }
         let inj = match crng.below(6) {
           0 => format!("function shadow0() {{ var {n}; {n} = 2; return {n}; }}"),
           1 => format!("function shadow1() {{ var {n} = 1; {{ {n} = 2; {n}++; }} return () => {n}; }}"),
@@ -509,7 +535,10 @@ fn run_c20(out: &mut Out, rng: &mut Rng, count: usize) {
           4 => format!("{{ class {n} {{}} new {n}(); }}"),
           _ => format!("const shadow5 = function {n}() {{ return {n}; }};"),
         };
-        format!("{}\n{}\n", src, inj)
+        match return_src {
+          Some(t) => t,
+          None => format!("{}\n{}\n", src, inj),
+        }
       }
     } else {
       src
